@@ -1161,6 +1161,13 @@ func (i *recursivePropIter) next() (propIterItem, iterNextFunc) {
 		name := item.name.string()
 		if _, exists := i.seen[name]; !exists {
 			i.seen[name] = struct{}{}
+			if item.enumerable == _ENUM_UNKNOWN && item.value == nil {
+				// resolve the property on the object the key belongs to: the enumerable filter above us only
+				// knows the object the enumeration started on
+				if item.value = i.o.getOwnPropStr(name); item.value == nil {
+					continue
+				}
+			}
 			return item, i.next
 		}
 	}
